@@ -1,0 +1,5 @@
+//go:build !verif
+
+package log
+
+func verifCrit(msg string) {}
